@@ -441,6 +441,12 @@ func (in *Interp) interceptByPackage(fn *ssa.Function, name string, args []Value
 	if fn.Pkg == nil {
 		return nil, false
 	}
+	if in.job.SummariseLogAdd && in.job.Mode == "real" && fn.Signature.Recv() != nil && fn.Pkg.Pkg.Path() == in.repoMod &&
+		(fn.Name() == "LogAdd" || fn.Name() == "LOGADD") && len(args) == 4 {
+		if r, ok := in.logAddSummary(fn, args); ok {
+			return r, true
+		}
+	}
 	path := fn.Pkg.Pkg.Path()
 	if path != in.repoMod+"/special" {
 		return nil, false
@@ -514,6 +520,9 @@ func (in *Interp) expOf(t *term.Term) *term.Term {
 		if t.F == 0 {
 			return one
 		}
+		if math.IsInf(t.F, -1) {
+			return term.FloatC(term.F64, 0)
+		}
 		return in.expAtom(t)
 	}
 	switch t.Op {
@@ -576,4 +585,73 @@ func hasLogTop(t *term.Term) bool {
 		return t.Name == "math.Log" || t.Name == "math.Log1p"
 	}
 	return false
+}
+
+// logAddSummary implements r.LogAdd(a, b, t) as r = log(exp a + exp b) with
+// the special cases of the code for -Inf operands.
+func (in *Interp) logAddSummary(fn *ssa.Function, args []Value) (Value, bool) {
+	recvT := fn.Signature.Recv().Type()
+	get := func(v Value) (*term.Term, bool) {
+		var t types.Type
+		var val Value
+		switch x := v.(type) {
+		case Iface:
+			if x.T == nil {
+				return nil, false
+			}
+			t, val = x.T, x.V
+		default:
+			t, val = recvT, v
+		}
+		f := in.hasMethod(t, "GetFloat64")
+		if f == nil {
+			return nil, false
+		}
+		r, ok := in.callSSA(f, []Value{val}, nil).(*term.Term)
+		return r, ok
+	}
+	// derivative-carrying operands are not summarised
+	for _, v := range args[1:3] {
+		var t types.Type
+		var val Value
+		if x, ok := v.(Iface); ok {
+			t, val = x.T, x.V
+		} else {
+			t, val = recvT, v
+		}
+		if f := in.hasMethod(t, "GetOrder"); f != nil {
+			if o, ok := in.callSSA(f, []Value{val}, nil).(*term.Term); !ok || !o.IsConst() || o.Int() != 0 {
+				return nil, false
+			}
+		}
+	}
+	a, ok1 := get(args[1])
+	b, ok2 := get(args[2])
+	if !ok1 || !ok2 {
+		return nil, false
+	}
+	set := in.hasMethod(recvT, "SetFloat64")
+	if set == nil {
+		return nil, false
+	}
+	in.stubsSeen["summary:LogAdd"]++
+	var r *term.Term
+	negInf := func(t *term.Term) bool { return t.IsConst() && math.IsInf(t.F, -1) }
+	switch {
+	case negInf(a):
+		r = b
+	case negInf(b):
+		r = a
+	default:
+		sum := term.Fadd(in.expOf(a), in.expOf(b))
+		r = in.mathUF1("Log", sum)
+	}
+	in.callSSA(set, []Value{args[0], r}, nil)
+	if fn.Signature.Results().Len() == 1 {
+		if _, isI := fn.Signature.Results().At(0).Type().Underlying().(*types.Interface); isI {
+			return Iface{T: recvT, V: args[0]}, true
+		}
+		return args[0], true
+	}
+	return nil, true
 }
